@@ -65,9 +65,9 @@ func VH_C09_K13_EngineRunsAndStops() {
 	r := verifrt.U32("round")
 	verifrt.Assume(r < 1<<8)
 	// a vote that moves the mirror out of (1,0) before the state machine's first round entrance
-	// has been served crashes the kernel natively in some schedules: known finding KF-C09-1,
-	// decided deterministically by VH_C09_K15. Here the message is for any position except a
-	// later round of the initial height.
+	// was served used to crash the kernel natively in some schedules (repaired; decided
+	// deterministically by VH_C09_K15). To keep the native runs of this harness independent of
+	// that schedule the message is for any position except a later round of the initial height.
 	verifrt.Assume(verifrt.Or(h != 1, r == 0))
 	keys := vkit.OkKeys(2)
 	var res tmconsensus.HandleVoteProofsResult
